@@ -117,14 +117,10 @@ RECORD_CTORS = {
 }
 RECORD_FIELD_WRAP = {("InvariantCodeDefinition", "default_value"): "some <| toVal"}
 
-# Lean structures emitted at the top of a generated module
+# record types live in lean/Spec/Records.lean (shared with the baseline snapshot); generated modules re-export them as aliases
 STRUCTS = {
-    "tucan.graph_utils": {
-        "InvariantCodeDefinition": "structure InvariantCodeDefinition where\n  key : String\n  default_value : Option Val := Option.none\n  deriving Repr, DecidableEq",
-    },
-    "tucan.parser.parser": {
-        "TucanListenerImpl": "structure TucanListenerImpl where\n  _atoms : List Attrs := []\n  _bonds : List (Int × Int) := []\n  _node_attributes : Dict Int Attrs := Dict.empty\n  deriving Repr, DecidableEq",
-    },
+    "tucan.graph_utils": {"InvariantCodeDefinition": "abbrev InvariantCodeDefinition := TucanTypes.InvariantCodeDefinition"},
+    "tucan.parser.parser": {"TucanListenerImpl": "abbrev TucanListenerImpl := TucanTypes.TucanListenerImpl"},
 }
 
 LISTENERS = {"tucan.parser.parser": "TucanListenerImpl"}
